@@ -3,6 +3,7 @@
 -/
 import Acra.Lemmas.MPEGTS
 import Acra.Model.PES
+import Acra.Lemmas.CRCMpeg
 namespace Acra.Lemmas.PES
 open Acra.Py Acra.Model.MPEGTS Acra.Model.PES Acra.Gen.PES Acra.Lemmas.MPEGTS
 
@@ -170,5 +171,143 @@ theorem PES_unpack_header (s t : PES) (h : PES_WF s) (hs : s.pkt.sync = 0x47)
       ← List.append_assoc (encInt true 1 w1), ← List.append_assoc (PES_prefix s)]
     exact drop_append_len _ _ _ (by simp; omega)
   simp [hsl, hdr]
+
+/-- the bytes summed by the checksum: key, BER length, tag 2 / length 8 / time, tag 1 / length 2 -/
+def STANAG_prot (tm : Nat) : Bytes :=
+  STANAG4609_UNIVERSAL_KEY ++ (encInt true 1 STANAG4609_LEN ++ (encInt true 1 STANAG4609_DATA_TAG ++
+    (encInt true 1 STANAG4609_DTAG_LEN ++ (encInt true 8 tm ++ (encInt true 1 STANAG4609_TIME_TAG ++
+      encInt true 1 STANAG4609_TTAG_LEN)))))
+
+theorem STANAG_prot_length (tm : Nat) : (STANAG_prot tm).length = 29 := by
+  simp [STANAG_prot, STANAG4609_UNIVERSAL_KEY]
+
+/-- the 36 bytes of PES data `STANAG4609.pack` builds -/
+def STANAG_data (c u1 u2 tm : Nat) : Bytes :=
+  (encInt true 2 c ++ (encInt true 1 u1 ++ encInt true 2 u2)) ++ (STANAG_prot tm ++
+    encInt true 2 (checksum_stanag (STANAG_prot tm)))
+
+theorem STANAG_data_length (c u1 u2 tm : Nat) : (STANAG_data c u1 u2 tm).length = 36 := by
+  simp [STANAG_data, STANAG_prot_length]
+
+/-- the checks `STANAG4609.unpack` performs after `PES.unpack`, on the metadata `pack` builds -/
+theorem STANAG_tail (t : STANAG) (buf : Bytes) (p : PES) (c u1 u2 tm : Nat)
+    (hc : c < 65536) (hu1 : u1 < 256) (hu2 : u2 < 65536) (htm : tm < 18446744073709551616)
+    (hp : PES.unpack t.pes buf = (p, .ok ())) (hpid : p.pkt.pid = 260) (hd : p.pesdata = STANAG_data c u1 u2 tm) :
+    STANAG.unpack t buf = ({ pes := p, stanag_counter := c, unknown := u1, unknown2 := u2, time_us := tm }, .ok ()) := by
+  have hcs : checksum_stanag (STANAG_prot tm) < 65536 := by unfold checksum_stanag; omega
+  have hpl := STANAG_prot_length tm
+  unfold STANAG.unpack
+  rw [hp]
+  simp only [hpid, hd, STANAG4609_PID]
+  have f0 : Fits STANAG_unpack_fmt0.codes [c, u1, u2] := by simp [Fits, STANAG_unpack_fmt0, Code.bound]; omega
+  have h0 : structUnpackFrom STANAG_unpack_fmt0 (STANAG_data c u1 u2 tm) 0 = .ok [c, u1, u2] := by
+    have := structUnpackFrom_enc0 STANAG_unpack_fmt0 [c, u1, u2]
+      (STANAG_prot tm ++ encInt true 2 (checksum_stanag (STANAG_prot tm))) f0
+    simpa [encCodes, STANAG_unpack_fmt0, Code.size, STANAG_data, List.append_assoc] using this
+  have hkey : slice (STANAG_data c u1 u2 tm) STANAG4609_UNKNOWN_OFFSET (STANAG4609_UNIVERSAL_KEY.length + STANAG4609_UNKNOWN_OFFSET)
+      = STANAG4609_UNIVERSAL_KEY := by
+    unfold STANAG_data STANAG_prot
+    simp only [List.append_assoc]
+    rw [← List.append_assoc (encInt true 1 u1), ← List.append_assoc (encInt true 2 c)]
+    exact slice_mid _ _ _ _ _ (by simp [STANAG4609_UNKNOWN_OFFSET]) (by simp [STANAG4609_UNKNOWN_OFFSET]; omega)
+  have f1 : Fits STANAG_unpack_fmt1.codes [STANAG4609_LEN, STANAG4609_DATA_TAG, STANAG4609_DTAG_LEN] := by decide
+  have h1 : structUnpackFrom STANAG_unpack_fmt1 (STANAG_data c u1 u2 tm) (STANAG4609_UNIVERSAL_KEY.length + STANAG4609_UNKNOWN_OFFSET)
+      = .ok [STANAG4609_LEN, STANAG4609_DATA_TAG, STANAG4609_DTAG_LEN] := by
+    have := structUnpackFrom_enc STANAG_unpack_fmt1 [STANAG4609_LEN, STANAG4609_DATA_TAG, STANAG4609_DTAG_LEN]
+      (encInt true 2 c ++ (encInt true 1 u1 ++ encInt true 2 u2) ++ STANAG4609_UNIVERSAL_KEY)
+      (encInt true 8 tm ++ (encInt true 1 STANAG4609_TIME_TAG ++ (encInt true 1 STANAG4609_TTAG_LEN ++
+        encInt true 2 (checksum_stanag (STANAG_prot tm))))) f1
+      (STANAG4609_UNIVERSAL_KEY.length + STANAG4609_UNKNOWN_OFFSET) (by simp [STANAG4609_UNKNOWN_OFFSET]; omega)
+    simpa [encCodes, STANAG_unpack_fmt1, Code.size, STANAG_data, STANAG_prot, List.append_assoc] using this
+  have f2 : Fits STANAG_unpack_fmt2.codes [tm, STANAG4609_TIME_TAG, STANAG4609_TTAG_LEN, checksum_stanag (STANAG_prot tm)] := by
+    simp [Fits, STANAG_unpack_fmt2, Code.bound, STANAG4609_TIME_TAG, STANAG4609_TTAG_LEN]; omega
+  have h2 : structUnpackFrom STANAG_unpack_fmt2 (STANAG_data c u1 u2 tm) (STANAG4609_UNIVERSAL_KEY.length + STANAG4609_UNKNOWN_OFFSET + 3)
+      = .ok [tm, STANAG4609_TIME_TAG, STANAG4609_TTAG_LEN, checksum_stanag (STANAG_prot tm)] := by
+    have := structUnpackFrom_enc STANAG_unpack_fmt2 [tm, STANAG4609_TIME_TAG, STANAG4609_TTAG_LEN, checksum_stanag (STANAG_prot tm)]
+      (encInt true 2 c ++ (encInt true 1 u1 ++ encInt true 2 u2) ++ STANAG4609_UNIVERSAL_KEY ++
+        (encInt true 1 STANAG4609_LEN ++ (encInt true 1 STANAG4609_DATA_TAG ++ encInt true 1 STANAG4609_DTAG_LEN)))
+      [] f2
+      (STANAG4609_UNIVERSAL_KEY.length + STANAG4609_UNKNOWN_OFFSET + 3) (by simp [STANAG4609_UNKNOWN_OFFSET]; omega)
+    simpa [encCodes, STANAG_unpack_fmt2, Code.size, STANAG_data, STANAG_prot, List.append_assoc] using this
+  have hsl : slice (STANAG_data c u1 u2 tm) STANAG4609_UNKNOWN_OFFSET ((STANAG_data c u1 u2 tm).length - 2) = STANAG_prot tm := by
+    rw [STANAG_data_length]
+    unfold STANAG_data
+    exact slice_mid _ _ _ _ _ (by simp [STANAG4609_UNKNOWN_OFFSET]) (by simp [hpl])
+  simp only [h0, hkey, h1, h2, hsl]
+  simp [STANAG4609_DATA_TAG, STANAG4609_DTAG_LEN]
+
+def STANAG_WF (s : STANAG) : Prop :=
+  s.stanag_counter < 65536 ∧ s.unknown < 256 ∧ s.unknown2 < 65536 ∧ s.time_us < 18446744073709551616
+instance (s : STANAG) : Decidable (STANAG_WF s) := by unfold STANAG_WF; infer_instance
+
+/-- the PES object `STANAG4609.pack` hands to `PES.pack`: PID forced, metadata rebuilt -/
+def STANAG_pes (s : STANAG) : PES :=
+  { s.pes with pkt := { s.pes.pkt with pid := STANAG4609_PID },
+               pesdata := STANAG_data s.stanag_counter s.unknown s.unknown2 s.time_us }
+
+theorem STANAG_pack_eq (s : STANAG) (h : STANAG_WF s) :
+    STANAG.pack s = ({ s with pes := (PES.pack (STANAG_pes s)).1 }, (PES.pack (STANAG_pes s)).2) := by
+  obtain ⟨h1, h2, h3, h4⟩ := h
+  have f0 : Fits STANAG_pack_fmt0.codes [s.stanag_counter, s.unknown, s.unknown2] := by
+    simp [Fits, STANAG_pack_fmt0, Code.bound]; omega
+  have f1 : Fits STANAG_pack_fmt1.codes [STANAG4609_LEN, STANAG4609_DATA_TAG, STANAG4609_DTAG_LEN] := by decide
+  have f2 : Fits STANAG_pack_fmt2.codes [s.time_us] := by simp [Fits, STANAG_pack_fmt2, Code.bound]; omega
+  have f3 : Fits STANAG_pack_fmt3.codes [STANAG4609_TIME_TAG, STANAG4609_TTAG_LEN] := by decide
+  unfold STANAG.pack
+  simp only [structPack_eq _ _ f0, structPack_eq _ _ f1, structPack_eq _ _ f2, structPack_eq _ _ f3]
+  have hD : encCodes STANAG_pack_fmt0.big STANAG_pack_fmt0.codes [s.stanag_counter, s.unknown, s.unknown2] ++
+      STANAG4609_UNIVERSAL_KEY ++
+      encCodes STANAG_pack_fmt1.big STANAG_pack_fmt1.codes [STANAG4609_LEN, STANAG4609_DATA_TAG, STANAG4609_DTAG_LEN] ++
+      encCodes STANAG_pack_fmt2.big STANAG_pack_fmt2.codes [s.time_us] ++
+      encCodes STANAG_pack_fmt3.big STANAG_pack_fmt3.codes [STANAG4609_TIME_TAG, STANAG4609_TTAG_LEN] =
+      (encInt true 2 s.stanag_counter ++ (encInt true 1 s.unknown ++ encInt true 2 s.unknown2)) ++ STANAG_prot s.time_us := by
+    simp [encCodes, STANAG_pack_fmt0, STANAG_pack_fmt1, STANAG_pack_fmt2, STANAG_pack_fmt3, Code.size, STANAG_prot,
+      List.append_assoc]
+  rw [hD]
+  have hdrop : List.drop STANAG4609_UNKNOWN_OFFSET
+      ((encInt true 2 s.stanag_counter ++ (encInt true 1 s.unknown ++ encInt true 2 s.unknown2)) ++ STANAG_prot s.time_us)
+      = STANAG_prot s.time_us := drop_append_len _ _ _ (by simp [STANAG4609_UNKNOWN_OFFSET])
+  rw [hdrop]
+  have hcs : checksum_stanag (STANAG_prot s.time_us) < 65536 := by unfold checksum_stanag; omega
+  have f4 : Fits STANAG_pack_fmt4.codes [checksum_stanag (STANAG_prot s.time_us)] := by
+    simp only [Fits, STANAG_pack_fmt4, Code.bound, and_true]; exact hcs
+  simp only [structPack_eq _ _ f4]
+  have : (encInt true 2 s.stanag_counter ++ (encInt true 1 s.unknown ++ encInt true 2 s.unknown2)) ++ STANAG_prot s.time_us ++
+      encCodes STANAG_pack_fmt4.big STANAG_pack_fmt4.codes [checksum_stanag (STANAG_prot s.time_us)]
+      = STANAG_data s.stanag_counter s.unknown s.unknown2 s.time_us := by
+    simp [STANAG_data, encCodes, STANAG_pack_fmt4, Code.size, List.append_assoc]
+  rw [this]
+  rfl
+
+/-- what decoding the packed STANAG packet gives -/
+def STANAG_decoded (s : STANAG) (w : Option (Nat × Nat × Bytes)) : STANAG :=
+  { pes := { pkt := Pkt_decoded (PES_pkt (STANAG_pes s)), streamid := s.pes.streamid,
+             pesdata := STANAG_data s.stanag_counter s.unknown s.unknown2 s.time_us,
+             extension_w1 := w.map (·.1), extension_w2 := w.map (·.2.1), header_data := w.map (·.2.2) },
+    stanag_counter := s.stanag_counter, unknown := s.unknown, unknown2 := s.unknown2, time_us := s.time_us }
+
+theorem STANAG_unpack_headerless (s t : STANAG) (h : STANAG_WF s) (hw : PES_WF (STANAG_pes s))
+    (hs : s.pes.pkt.sync = 0x47) (hafc : s.pes.pkt.adaption_ctrl = 1 ∨ s.pes.pkt.adaption_ctrl = 3)
+    (hne : PES.ext s.pes = none) (hfull : Pkt_used (PES_pkt (STANAG_pes s)) = 188)
+    (hnl : ¬ looksLikeHeader (STANAG_pes s)) :
+    STANAG.unpack t (Pkt_bytes (PES_pkt (STANAG_pes s))) = (STANAG_decoded s none, .ok ()) := by
+  obtain ⟨h1, h2, h3, h4⟩ := h
+  have hst : Pkt_stuffing (PES_pkt (STANAG_pes s)) = [] := by simp [Pkt_stuffing, hfull]
+  have hne' : PES.ext (STANAG_pes s) = none := hne
+  have h9 : 3 ≤ (PES_tail (STANAG_pes s)).length := by
+    simp [PES_tail, STANAG_pes, STANAG_data_length]; omega
+  have hp := PES_unpack_headerless (STANAG_pes s) t.pes hw hs hafc hne' h9 hnl
+  rw [hst, List.append_nil] at hp
+  exact STANAG_tail t _ _ _ _ _ _ h1 h2 h3 h4 hp rfl rfl
+
+theorem STANAG_unpack_header (s t : STANAG) (h : STANAG_WF s) (hw : PES_WF (STANAG_pes s))
+    (hs : s.pes.pkt.sync = 0x47) (hafc : s.pes.pkt.adaption_ctrl = 1 ∨ s.pes.pkt.adaption_ctrl = 3)
+    (w1 w2 : Nat) (hd : Bytes) (he : PES.ext s.pes = some (w1, w2, hd)) (hw1 : w1 / 16 = 8)
+    (hfull : Pkt_used (PES_pkt (STANAG_pes s)) = 188) :
+    STANAG.unpack t (Pkt_bytes (PES_pkt (STANAG_pes s))) = (STANAG_decoded s (some (w1, w2, hd)), .ok ()) := by
+  obtain ⟨h1, h2, h3, h4⟩ := h
+  have he' : PES.ext (STANAG_pes s) = some (w1, w2, hd) := he
+  have hp := PES_unpack_header (STANAG_pes s) t.pes hw hs hafc w1 w2 hd he' hw1 (by simp [Pkt_stuffing, hfull])
+  exact STANAG_tail t _ _ _ _ _ _ h1 h2 h3 h4 hp rfl rfl
 
 end Acra.Lemmas.PES
